@@ -49,6 +49,13 @@ func (r *Recorder) Events() []Event {
 	return out
 }
 
+// Len is the number of events logged so far.
+func (r *Recorder) Len() int {
+	r.mu.Lock()
+	defer r.mu.Unlock()
+	return len(r.events)
+}
+
 func (r *Recorder) Now() int { return int(time.Since(r.t0) / time.Millisecond) }
 
 // Broker is one running in-process broker.
